@@ -30,6 +30,11 @@ def pcell(op, N, k, tk='existing', T=60, **extra):
     if has_t and tk == 'existing':
         sym.append(('t', 'int'))
         pre.append('0 <= t < %d' % N)
+    if extra.get('dup_new') is not None:
+        sym.append(('d', 'int'))
+        pre.append('0 <= d < %d' % N)
+        if has_t and tk == 'existing':
+            pre.append('d != t')
     pre = str_pre(strs) + distinct(strs) + pre
     cid = 'C04/%s/N%d/k%d%s' % (op, N, k, '' if tk == 'existing' or not has_t else '/t-' + tk)
     for key, v in extra.items():
@@ -105,6 +110,10 @@ def cells(tier):
         for op in ('roStoryInsert', 'roStoryReplace', 'EAStoryReplace', 'roItemInsert', 'roItemReplace',
                    'EAItemReplace', 'EAItemInsert', 'EAStoryInsert', 'roStoryAppend'):
             out.append(pcell(op, 2, 3, T=T))
+    # carried elements whose ID another element of the container already has
+    for op in ('roStoryReplace', 'EAStoryReplace', 'roItemInsert', 'roItemReplace', 'EAItemInsert', 'EAItemReplace'):
+        out.append(pcell(op, 3, 1, T=T, dup_new=0))
+        out.append(pcell(op, 3, 2, T=T, dup_new=1))
     # carried elements whose ID tag is blank: they arrive exactly as sent
     for op in ('roStoryAppend', 'roStoryInsert', 'roStoryReplace', 'EAStoryInsert', 'EAStoryReplace',
                'roItemInsert', 'roItemReplace', 'EAItemInsert', 'EAItemReplace'):
